@@ -113,7 +113,7 @@ func runCase(c *run.Ctx, o *run.Outcome) {
 		return
 	}
 	r := c.Rng
-	hist, st := gitgen.SynthHistory(r.Fork(), gitgen.SynthOpts{MaxCommits: 30, MaxAuthors: 8, MaxFiles: 15, MaxChain: 4})
+	hist, st := gitgen.SynthHistory(r.Fork(), gitgen.SynthOpts{MaxCommits: 30 + 30*(c.Index%2), MaxAuthors: 14, MaxFiles: 15, MaxChain: 4})
 	msgs := toCoca(hist)
 	witness := map[string]interface{}{"history": hist}
 	o.Witness = witness
